@@ -369,6 +369,17 @@ def run(ch, idx, tier):
             ts = par.ts[pops_[ch.choose("zero_constant.pop", len(pops_))]]
             ts.t, ts.vals, ts.assumption = [], [], 0.0
             bump("probe:zero_valued_constant_made_uncertain")
+    if ch.flip("constant_and_time_values", 0.3):
+        # rows that carry BOTH a constant and year-specific values are valid books; the values the model uses
+        # (the year-specific ones) are as uncertain as any other
+        rows = [ts for par in parset.all_pars() for ts in par.ts.values() if ts.has_time_data and ts.assumption is None]
+        if progset is not None:
+            rows += [ts for prog in progset.programs.values() for ts in (prog.spend_data, prog.unit_cost) if ts.has_time_data and ts.assumption is None]
+        for j in range(min(len(rows), 1 + ch.choose("both.n", 3))):
+            ts = rows[ch.choose(f"both.row[{j}]", len(rows))]
+            ts.assumption = float(np.mean(ts.vals))
+        if rows:
+            bump("probe:rows_with_constant_and_time_values")
     npos = _set_sigmas(ch, P, parset, progset, mode)
     api = ch.pick("api", ["run_sampled_sims", "ensemble"])
     parallel = ch.flip("parallel", 0.75)
